@@ -1,4 +1,5 @@
 import DirectVerif.Lemmas.C17Nets
+import DirectVerif.Model.BatchSep
 /-!
 # C17 — every network in the zoo honours its shape contract for all input sizes
 
@@ -229,6 +230,20 @@ theorem scaling_broadcast_n2_mixes (h w : Nat) : broadcast [2, h, w, 2] [2] = so
 /-- `_partial`: a per-sample factor reshaped to `(N, 1, 1, 1)` (as KIKINet does) broadcasts for every batch size -/
 theorem scaling_broadcast_repaired (n h w : Nat) : broadcast [n, h, w, 2] [n, 1, 1, 1] = some [n, h, w, 2] := by
   by_cases a : h = 1 <;> by_cases b : w = 1 <;> simp [broadcast, a, b]
+
+theorem foldl_add_replicate_zero (n : Nat) (a : Int) : (List.replicate n (0 : Int)).foldl (· + ·) a = a := by
+  induction n generalizing a with
+  | zero => rfl
+  | succ n ih => simp [List.replicate_succ, ih]
+
+/-- FINDING (current tree, finiteness): `MRIVarSplitNet(image_model_architecture="normunet")` feeds the Norm-U-Net
+`cat([z, mu·(z − image)])` with `z = image.clone()` in the first iteration: the second normalisation group is
+identically zero, so its statistics are `S = 0`, `Q = Σ (n·x − S)² = 0` — `std = 0`, and `(x − mean) / std = 0 / 0`
+(NaN) for every input size. -/
+theorem normunet_zero_group_current_violates (n : Nat) :
+    BatchSep.groupStat (List.replicate n 0) = [(n : Int), 0, 0] := by
+  simp only [BatchSep.groupStat, List.length_replicate, List.map_replicate, foldl_add_replicate_zero]
+  simp [foldl_add_replicate_zero]
 
 /-! ## the glue of the unrolled networks -/
 
